@@ -126,38 +126,68 @@ def run(ctx: core.Ctx) -> int:
     ok1 = isinstance(first, ast.If) and ast.unparse(first.test).replace(" ", "") == "notisinstance(end_state,StateId)" and any(isinstance(x, ast.Raise) for x in first.body)
     ctx.oblige("SEARCH", where, "non-StateId -> raise (first statement)", ok1, file=F, func="StateMachineState.search", construct="type guard",
                msg="search does not refuse a target that is not a StateId before searching")
-    loop = next((s for s in b if isinstance(s, ast.For)), None)
-    txt = [ast.unparse(s).replace(" ", "") for s in (loop.body if loop else [])]
-    okq = any((t.startswith("iflen(frontier)<=0:") or t.startswith("ifnotfrontier:") or t.startswith("iflen(frontier)==0:")) and "break" in t for t in txt)
-    whole = "".join(txt)
-    front = ("current_state,transitions=frontier[0]" in txt and "frontier=frontier[1:]" in txt) or "current_state,transitions=frontier.pop(0)" in txt \
-        or "current_state,transitions=frontier.popleft()" in txt or ("current_state,transitions=frontier[0]" in txt and "delfrontier[0]" in txt)
-    lifo = "=frontier.pop()" in whole or "=frontier[-1]" in whole or "frontier.insert(0" in whole or "frontier.appendleft(" in whole
-    goal = any(t.startswith("ifcurrent_state.state_id()==end_state:") and "returntransitions" in t for t in txt)
-    if loop is not None and not front and not lifo:
-        ctx.error(f"{where}: how the frontier is popped is not an enumerated idiom")
-    ctx.oblige("SEARCH", where, "FIFO pop from the front; goal test on the popped entry", bool(loop) and okq and front and not lifo and goal, file=F,
-               func="StateMachineState.search", construct="frontier discipline",
-               msg="the frontier is not processed first-in first-out with the goal test on the popped entry (paths may not be shortest / may be wrong)")
-    inner = next((s for s in (loop.body if loop else []) if isinstance(s, ast.For)), None)
-    ext = False
     from .. import normstmt as _ns
     _al = _ns.Aliases(search, linear_calls=True)
-    if inner is not None:
-        it_ok = ast.unparse(inner.iter).replace(" ", "") == "current_state.available_transitions()" and isinstance(inner.target, ast.Name)
-        tn = inner.target.id if isinstance(inner.target, ast.Name) else "?"
-        apps = [c for st in inner.body for c in ast.walk(st) if isinstance(c, ast.Call) and ast.unparse(c.func) == "frontier.append"]
-        want = f"frontier.append(SearchState(inspect.signature(getattr(current_state,{tn})).return_annotation,transitions+[{tn}]))"
-        ext = it_ok and len(apps) == 1 and _al.text(apps[0]) == want
-    ctx.oblige("SEARCH", where, "each listed transition appends (its annotated target, popped path + [name]) at the back", ext, file=F, func="StateMachineState.search",
-               construct="path extension", msg="frontier entries do not extend the popped entry's path by the transition just looked up")
-    after = b[b.index(loop) + 1:] if loop in b else []
-    okx = any(isinstance(s, ast.Raise) and "ValueError" in ast.unparse(s) for s in after)
-    ctx.oblige("SEARCH", where, "exhaustion -> raise ValueError", okx, file=F, func="StateMachineState.search", construct="exhaustion raise",
-               msg="an unreachable target does not end in a raise")
-    init_f = any(isinstance(s, ast.Assign) and ast.unparse(s.targets[0]) == "frontier" and _al.text(s.value) == "[SearchState(self,[])]" for s in b)
-    ctx.oblige("SEARCH", where, "search starts from (self, [])", init_f, file=F, func="StateMachineState.search", construct="initial frontier",
+    U = lambda e: ast.unparse(e).replace(" ", "")
+    # the frontier is whatever variable is initialised with the single entry (self, []) -- a list or a deque
+    fr = None
+    is_deque = False
+    for s_ in b:
+        if isinstance(s_, ast.Assign) and len(s_.targets) == 1 and isinstance(s_.targets[0], ast.Name):
+            v = s_.value
+            dq = False
+            while isinstance(v, ast.Call) and U(v.func) in ("deque", "collections.deque", "list") and len(v.args) == 1 and not v.keywords:
+                dq = dq or U(v.func).endswith("deque")
+                v = v.args[0]
+            if isinstance(v, (ast.List, ast.Tuple)) and len(v.elts) == 1 and _al.text(v.elts[0]) in ("SearchState(self,[])", "SearchState(state=self,transitions=[])"):
+                fr, is_deque = s_.targets[0].id, dq
+    ctx.oblige("SEARCH", where, f"search starts from (self, []) in `{fr}`", fr is not None, file=F, func="StateMachineState.search", construct="initial frontier",
                msg="the search does not start from this state with an empty path")
+    loop = next((s_ for s_ in b if isinstance(s_, (ast.For, ast.While))), None)
+    if fr is None or loop is None:
+        if loop is None:
+            ctx.error(f"{where}: no search loop found")
+    else:
+        body = loop.body
+        txt = [U(s_) for s_ in body]
+        whole = "".join(txt)
+        okq = any((t.startswith(f"iflen({fr})<=0:") or t.startswith(f"ifnot{fr}:") or t.startswith(f"iflen({fr})==0:")) and "break" in t for t in txt) \
+            or (isinstance(loop, ast.While) and U(loop.test) in (fr, f"len({fr})>0", f"len({fr})!=0"))
+        # the pop: `cur, path = F[0]` + (`F = F[1:]` | `del F[0]`), `F.pop(0)`, `F.popleft()`
+        cur = path = None
+        front = False
+        for k_, s_ in enumerate(body):
+            if isinstance(s_, ast.Assign) and len(s_.targets) == 1 and isinstance(s_.targets[0], ast.Tuple) and len(s_.targets[0].elts) == 2 \
+                    and all(isinstance(e_, ast.Name) for e_ in s_.targets[0].elts):
+                v = U(s_.value)
+                if v in (f"{fr}.pop(0)", f"{fr}.popleft()"):
+                    front = v.endswith("popleft()") if is_deque else v.endswith("pop(0)")
+                    cur, path = (e_.id for e_ in s_.targets[0].elts)
+                elif v == f"{fr}[0]" and not is_deque:
+                    rest = [U(x) for x in body[k_ + 1:k_ + 3]]
+                    front = f"{fr}={fr}[1:]" in rest or f"del{fr}[0]" in rest
+                    cur, path = (e_.id for e_ in s_.targets[0].elts)
+        lifo = f"={fr}.pop()" in whole or f"={fr}[-1]" in whole or f"{fr}.insert(0" in whole or f"{fr}.appendleft(" in whole
+        if not front and not lifo:
+            ctx.error(f"{where}: how the frontier `{fr}` is popped is not an enumerated idiom")
+        goal = cur is not None and any(t.startswith(f"if{cur}.state_id()==end_state:") and f"return{path}" in t for t in txt)
+        ctx.oblige("SEARCH", where, "FIFO pop from the front; goal test on the popped entry", okq and front and not lifo and goal, file=F,
+                   func="StateMachineState.search", construct="frontier discipline",
+                   msg="the frontier is not processed first-in first-out with the goal test on the popped entry (paths may not be shortest / may be wrong)")
+        inner = next((s_ for s_ in body if isinstance(s_, ast.For)), None)
+        ext = False
+        if inner is not None and cur is not None:
+            it_ok = U(inner.iter) == f"{cur}.available_transitions()" and isinstance(inner.target, ast.Name)
+            tn = inner.target.id if isinstance(inner.target, ast.Name) else "?"
+            apps = [c for st in inner.body for c in ast.walk(st) if isinstance(c, ast.Call) and U(c.func) == f"{fr}.append"]
+            want = f"{fr}.append(SearchState(inspect.signature(getattr({cur},{tn})).return_annotation,{path}+[{tn}]))"
+            ext = it_ok and len(apps) == 1 and _al.text(apps[0]) == want
+        ctx.oblige("SEARCH", where, "each listed transition appends (its annotated target, popped path + [name]) at the back", ext, file=F, func="StateMachineState.search",
+                   construct="path extension", msg="frontier entries do not extend the popped entry's path by the transition just looked up")
+        after = b[b.index(loop) + 1:] if loop in b else []
+        okx = any(isinstance(s_, ast.Raise) and "ValueError" in ast.unparse(s_) for s_ in after)
+        ctx.oblige("SEARCH", where, "exhaustion -> raise ValueError", okx, file=F, func="StateMachineState.search", construct="exhaustion raise",
+                   msg="an unreachable target does not end in a raise")
     # ---- FIT
     fm = core.need(classes.get("FitModelState"), "FitModelState")
     impl = core.need(core.find_func(fm, "_fit_model_impl"), "FitModelState._fit_model_impl")
@@ -215,5 +245,5 @@ def run(ctx: core.Ctx) -> int:
     okae = args == ["self.symbolic_model", "self.process_noise", "self.sensor_models", "self.sensor_noises", "self.calibration_map", "config=self.config"]
     ctx.oblige("FIT", "py/formak/python.py:SklearnEKFAdapter.export_python", f"compile_ekf({', '.join(args)})", okae, file="py/formak/python.py",
                func="SklearnEKFAdapter.export_python", construct="export args", msg="the exported filter is not compiled from exactly the estimator's six parameters")
-    c17.set_params_rule(ctx, ad)
+    c17.set_params_rule(ctx, ad, py)
     return core.finish(ctx, explanation="declared transition graph extraction, typestate (who may construct), BFS discipline, grid/export dataflow", **META)
